@@ -26,6 +26,8 @@ Inductive kw := KwIf | KwThen | KwElsif | KwElse | KwEndIf | KwFor | KwTo | KwBy
   | KwWhile | KwEndWhile | KwRepeat | KwUntil | KwEndRepeat | KwExit | KwReturn | KwEndPou
   | KwCase | KwOf | KwEndCase.
 Inductive ckind := CkInt | CkTrue | CkFalse | CkStr | CkWStr.
+Inductive dkw := DkVar | DkVarInput | DkVarOutput | DkVarInOut | DkVarExternal | DkEndVar | DkConstant | DkRetain | DkNonRetain
+  | DkREdge | DkFEdge.
 Inductive tcl :=
   | CTriv | CId | CConst (k : ckind)
   | CLP | CRP | CComma | CSemi | CAssign | CArrow
@@ -35,6 +37,8 @@ Inductive tcl :=
   | CMinus | CNot
   | CKw (k : kw)
   | CBoolT | CHash              (* BOOL and '#': only in BOOL#TRUE / BOOL#FALSE *)
+  | CTyKw                       (* an elementary type keyword other than BOOL, STRING and WSTRING *)
+  | CDk (k : dkw)               (* the keywords of variable declaration blocks *)
   | CSel | COther.
 
 Definition kw_eqb (a b : kw) : bool :=
